@@ -182,6 +182,14 @@ def rule_g3(F):
 CONSTRUCTORS = {"Verdict": 2, "Result": 2, "Option": 1, "List": 1}
 
 
+def _bound_fields(ld, local):
+    """Field names through which a local was bound in a destructuring pattern (`TypeName { name, arguments }` -> 'name')."""
+    d = ld.get(local)
+    if not d or not d[2]:
+        return set()
+    return {x for x in d[2] if isinstance(x, str) and x not in ("arm", "param")}
+
+
 def _constructor_helper(F, body):
     """The arm delegates the 'is this the built-in generic NAME, and what are its arguments' test to a crate-local helper:
     `let Some([a, b]) = helper(&roto_type, "NAME") else { return Err(..) }`. Returns None or a dict with the literal, whether
@@ -204,12 +212,24 @@ def _constructor_helper(F, body):
         glob = any((hir.res_def(n) or "").endswith("ScopeRef::GLOBAL") for n in hir.walk(hh) if n.get("k") == "path")
         # the comparison(s): == / != whose operands involve the `name`/`ident`/`scope` of the type on one side and the parameter / GLOBAL on the other
         cmp_param = cmp_scope = False
+        def expanded(e, depth=0):
+            """nodes of e, plus the nodes of the initialisers of the locals it mentions (so `*name == builtin` sees the struct behind `builtin`)"""
+            out = []
+            for n in hir.walk(e):
+                out.append(n)
+                if n.get("k") == "path" and hir.res_local(n) is not None and depth < 4:
+                    d_ = hld.get(hir.res_local(n))
+                    if d_ and d_[1] is not None and not (d_[2] and d_[2][0] == "arm"):
+                        out += expanded(d_[1], depth + 1)
+            return out
         for c in hir.nodes(hh, "bin"):
             if c.get("op") not in ("==", "!="):
                 continue
-            fields = {n.get("n") for n in hir.walk(c) if n.get("k") == "field"} | {f[0] for st in hir.nodes(c, "struct") for f in st["fields"]}
+            ex = expanded(c)
+            fields = {n.get("n") for n in ex if n.get("k") == "field"} | {f[0] for n in ex if n.get("k") == "struct" for f in n["fields"]} \
+                | {x for n in ex if n.get("k") == "path" and hir.res_local(n) is not None for x in _bound_fields(hld, hir.res_local(n))}
             uses_param = lit_pos in hir.param_roots(hb.hir, hld, c, pidx=pidx)
-            uses_glob = any((hir.res_def(n) or "").endswith("ScopeRef::GLOBAL") for n in hir.walk(c) if n.get("k") == "path")
+            uses_glob = any((hir.res_def(n) or "").endswith("ScopeRef::GLOBAL") for n in ex if n.get("k") == "path")
             if uses_param and ({"ident", "name"} & fields):
                 cmp_param = True
             if uses_glob and ({"scope", "name"} & fields):
